@@ -234,7 +234,7 @@ structure Wire.Keeps (x : Wire) : Prop where
 that request (or none, for an OPTIONS request the library answers itself), the bytes written back are the interim answer
 to `Expect: 100-continue` (if asked) and the response for that request alone, the connection is kept and positioned
 after the request -/
-theorem serveStep_exact (opt : Bool) (base : Bytes) (p : Plan) (x : Wire) (hx : x.Keeps) (hns : NotClosedByStream x.expected p)
+theorem serveStep_exact (opt : Bool) (base : Bytes) (p : Plan) (x : Wire) (hx : x.Keeps) (hns : closesAfter x.expected p = false)
     (rest : Bytes) (i : Inp) (hi : Live i) (hd : i.data = x.bytes ++ rest) :
     ∃ i' : Inp, serveStep opt base p i =
         (if (serve1 opt x.expected p [] base).called then some x.expected else none,
@@ -254,7 +254,12 @@ theorem serveStep_exact (opt : Bool) (base : Bytes) (p : Plan) (x : Wire) (hx : 
       obtain ⟨a, t, hm⟩ := List.exists_cons_of_ne_nil (proto_ok hx.wf.isProto).1; rw [hm]; rfl
     simp [Request.valid, Wire.expected, h1, h2, h3]
   have hkeep : (serve1 opt x.expected p [] base).keep = true := by
-    unfold serve1; rw [serveOne_keep _ _ _ _ _ _ _ hns]; exact hx.stays
+    unfold serve1
+    by_cases ho : x.expected.method = sOPTIONS ∧ opt = true
+    · obtain ⟨hm, hopt⟩ := ho
+      subst hopt
+      rw [serveOne_keep_options _ _ _ _ _ _ hm]; exact hx.stays
+    · rw [serveOne_keep _ _ _ _ _ _ _ ho, hns]; simpa using hx.stays
   refine ⟨i', ?_, hdat, hlive⟩
   unfold serveStep
   simp only [hne, live_dead hi, Bool.false_eq_true, or_self, if_false]
@@ -266,7 +271,7 @@ any fragmentation (`i` is any live connection state), with bodies framed by leng
 or by `Connection: keep-alive` — are served exactly as if each had arrived alone on a fresh connection: the reader
 consumes exactly one message per turn. -/
 theorem keepalive_seq (opt : Bool) (base : Bytes) : ∀ (l : List (Wire × Plan)) (i : Inp), Live i →
-    (∀ xp ∈ l, xp.1.Keeps) → (∀ xp ∈ l, NotClosedByStream xp.1.expected xp.2) → i.data = (l.map (fun xp => xp.1.bytes)).flatten →
+    (∀ xp ∈ l, xp.1.Keeps) → (∀ xp ∈ l, closesAfter xp.1.expected xp.2 = false) → i.data = (l.map (fun xp => xp.1.bytes)).flatten →
     serveConn opt base (l.map (·.2)) i =
       l.map (fun xp => ((serveStep opt base xp.2 (Inp.ofBytes xp.1.bytes)).1, (serveStep opt base xp.2 (Inp.ofBytes xp.1.bytes)).2.1)) := by
   intro l
@@ -410,13 +415,38 @@ theorem stream_roundtrip (proto : Bytes) (code : Nat) (hs : Dic) (parts : List B
       (streamHeaders_named proto code hte hcl).2.2, hchunk, List.append_assoc])
   exact ⟨_, i', hread, hdat, hlive, ⟨rfl, rfl, rfl, rfl, rfl⟩⟩
 
-/-- **refused_headers_no_response** (after the repair 9f1c7c1).  When the reader refuses the header block of a response (a
+/-- **refused_headers_no_response** (after the repair 9f1c7c1; conditional: it starts from a head whose reading closed the
+connection — that the refused kinds of blocks do close it is shown on concrete responses by `refused_examples` below, at both
+refusal points; the general statement "for every well-formed header list followed by any refused line, in every fragmentation"
+is not proved).  When the reader refuses the header block of a response (a
 field name that is no token, a line without colon, a block that breaks off: it closes the socket), the client does not
 report a response: code 0, socket error SOCKET_BAD_DATA, no body. -/
 theorem refused_headers_no_response (i : Inp) (c : Nat) (p : Bytes) (h : Dic) (i2 : Inp)
     (hh : readResponseHead i = some (c, p, h, i2)) (hcl : i2.closed = true) :
     (readResponse i).1.code = 0 ∧ (readResponse i).1.sockError = sBadData ∧ (readResponse i).1.body = [] := by
   unfold readResponse; rw [hh]; simp [hcl]
+
+/-- the hypotheses of `refused_headers_no_response` are met by every kind of header block the reader refuses, at both
+refusal points of `Http::request` (after the status line, and inside the loop that skips `100 Continue`): concrete responses,
+evaluated by the kernel -/
+def refusedExamples : List (Bytes × List Nat) :=
+  [([72, 84, 84, 80, 47, 49, 46, 49, 32, 50, 48, 48, 32, 79, 75, 13, 10, 88, 45, 65, 58, 32, 49, 13, 10, 66, 97, 100, 32, 78, 97, 109, 101, 58, 32, 118, 13, 10, 67, 111, 110, 116, 101, 110, 116, 45, 76, 101, 110, 103, 116, 104, 58, 32, 53, 13, 10, 13, 10, 104, 101, 108, 108, 111], [7, 30]),
+   ([72, 84, 84, 80, 47, 49, 46, 49, 32, 50, 48, 48, 32, 79, 75, 13, 10, 88, 45, 65, 58, 32, 49, 13, 10, 110, 111, 99, 111, 108, 111, 110, 13, 10, 67, 111, 110, 116, 101, 110, 116, 45, 76, 101, 110, 103, 116, 104, 58, 32, 53, 13, 10, 13, 10, 104, 101, 108, 108, 111], []),
+   ([72, 84, 84, 80, 47, 49, 46, 49, 32, 50, 48, 48, 32, 79, 75, 13, 10, 67, 111, 110, 116, 101, 110, 116, 45, 76, 101, 110, 103, 116, 104, 32, 58, 32, 53, 13, 10, 13, 10, 104, 101, 108, 108, 111], [20]),
+   ([72, 84, 84, 80, 47, 49, 46, 49, 32, 50, 48, 48, 32, 79, 75, 13, 10, 58, 32, 118, 13, 10, 67, 111, 110, 116, 101, 110, 116, 45, 76, 101, 110, 103, 116, 104, 58, 32, 53, 13, 10, 13, 10, 104, 101, 108, 108, 111], []),
+   ([72, 84, 84, 80, 47, 49, 46, 49, 32, 50, 48, 48, 32, 79, 75, 13, 10, 32, 88, 45, 70, 105, 114, 115, 116, 58, 32, 118, 13, 10, 67, 111, 110, 116, 101, 110, 116, 45, 76, 101, 110, 103, 116, 104, 58, 32, 53, 13, 10, 13, 10, 104, 101, 108, 108, 111], [1, 2, 3]),
+   ([72, 84, 84, 80, 47, 49, 46, 49, 32, 50, 48, 48, 32, 79, 75, 13, 10, 88, 45, 65, 58, 32, 49, 13, 10, 67, 111, 110, 116, 101, 110, 116, 45, 76, 101], []),
+   ([72, 84, 84, 80, 47, 49, 46, 49, 32, 49, 48, 48, 32, 67, 111, 110, 116, 105, 110, 117, 101, 13, 10, 13, 10, 72, 84, 84, 80, 47, 49, 46, 49, 32, 50, 48, 48, 32, 79, 75, 13, 10, 88, 45, 65, 58, 32, 49, 13, 10, 66, 97, 100, 32, 78, 97, 109, 101, 58, 32, 118, 13, 10, 67, 111, 110, 116, 101, 110, 116, 45, 76, 101, 110, 103, 116, 104, 58, 32, 53, 13, 10, 13, 10, 104, 101, 108, 108, 111], [25, 40]),
+   ([72, 84, 84, 80, 47, 49, 46, 49, 32, 49, 48, 48, 32, 67, 111, 110, 116, 105, 110, 117, 101, 13, 10, 13, 10, 72, 84, 84, 80, 47, 49, 46, 49, 32, 50, 48, 49, 32, 79, 75, 13, 10, 110, 111, 99, 111, 108, 111, 110, 13, 10, 13, 10], [])]
+  -- a field name with a blank; a line without colon; a blank before the colon of Content-Length; an empty field name; a first line that continues nothing; a block that breaks off; the same behind an interim 100 Continue (the refusal point inside skipContinue); a line without colon behind the interim response
+
+theorem refused_examples :
+    ∀ x ∈ refusedExamples, (readResponse (Inp.ofBytes x.1 x.2)).1.code = 0 ∧ (readResponse (Inp.ofBytes x.1 x.2)).1.sockError = sBadData ∧
+      (readResponse (Inp.ofBytes x.1 x.2)).1.body = [] := by
+  decide +kernel
+
+/-- and a well-formed response behind the interim one is still read (the refusal is not vacuous the other way) -/
+example : (readResponse (Inp.ofBytes [72, 84, 84, 80, 47, 49, 46, 49, 32, 49, 48, 48, 32, 67, 111, 110, 116, 105, 110, 117, 101, 13, 10, 13, 10, 72, 84, 84, 80, 47, 49, 46, 49, 32, 50, 48, 48, 32, 79, 75, 13, 10, 88, 45, 65, 58, 32, 49, 13, 10, 67, 111, 110, 116, 101, 110, 116, 45, 76, 101, 110, 103, 116, 104, 58, 32, 53, 13, 10, 13, 10, 104, 101, 108, 108, 111] [25])).1.code = 200 := by decide +kernel
 
 /-- **auto_stream_roundtrip** (after the repairs 75c75d0, 3e98c13).  A handler that answers an HTTP/1.1 request in pieces
 with `write(part)` and names neither a length nor a coding, with a status that can have a body: the library sends the pieces
@@ -436,7 +466,8 @@ theorem auto_stream_roundtrip (code : Nat) (hs : Dic) (parts : List Bytes) (rest
   rw [serializeStream_own _ _ _ _ hbody hcl hte]
   exact stream_roundtrip sHttp11 code hs parts rest cuts (Or.inl rfl) hcode hh hret
 
-/-- **bodyless_stream_plain** (after the repair 3e98c13).  A 1xx, 204 or 304 whose handler sends the headers itself and
+/-- **bodyless_stream_plain** (after the repair 3e98c13; a model lemma: a one-step unfolding of `serializeStream`, not a
+property clause).  A 1xx, 204 or 304 whose handler sends the headers itself and
 writes nothing goes out as its header block alone: no coding announced, no chunk after it. -/
 theorem bodyless_stream_plain (blk : Nat) (proto : Bytes) (code : Nat) (hs : Dic) (hb : bodyless code = true)
     (hte : dicGet hs sTransferEncoding = none) :
@@ -467,6 +498,67 @@ theorem http10_stream_raw (code : Nat) (hs : Dic) (parts : List Bytes) (hb : bod
     | nil => rfl
     | cons a t ih => simp [hp a, ih]
   rw [this]; simp
+
+/-- **serveStep_http10_stream** (after the repair 687f097; what `serveStep_exact` excludes).  An HTTP/1.0 request answered in
+pieces by a handler that names no framing, with a status that can have a body: the handler gets the request, the bytes
+written back are the header block under `Connection: close` and the pieces as they are, and the connection is NOT kept —
+whatever the request asked for. -/
+theorem serveStep_http10_stream (opt : Bool) (base : Bytes) (p : Plan) (parts : List Bytes) (x : Wire) (hx : x.Keeps)
+    (h10 : x.proto = sHttp10) (hk : p.kind = .streamAuto parts) (hopt : ¬ (x.method = sOPTIONS ∧ opt = true))
+    (hec : endByClose sHttp10 p.code (handlerHeaders x.expected p) = true)
+    (rest : Bytes) (i : Inp) (hi : Live i) (hd : i.data = x.bytes ++ rest) :
+    ∃ i' : Inp, serveStep opt base p i =
+        (some x.expected,
+         interimOf x.expected.headers ++ (headerBlock (statusLine sHttp10 p.code) (setHeader (handlerHeaders x.expected p) sConnection sClose) ++ parts.flatten),
+         false, i') ∧
+      i'.data = rest ∧ Live i' := by
+  obtain ⟨i', hread, hdat, hlive⟩ := wire_request_exact x hx.wf rest i hi hd
+  have hne : i.data.isEmpty = false := by
+    rw [hd]
+    obtain ⟨a, t, hm⟩ := List.exists_cons_of_ne_nil hx.wf.wfMethod.1
+    simp [Wire.bytes, hm]
+  have hvalid : x.expected.valid = true := by
+    have h1 : x.method.isEmpty = false := by
+      obtain ⟨a, t, hm⟩ := List.exists_cons_of_ne_nil hx.wf.wfMethod.1; rw [hm]; rfl
+    have h2 : (splitTarget x.target).1.isEmpty = false := by
+      obtain ⟨a, t, hm⟩ := List.exists_cons_of_ne_nil hx.hasPath; rw [hm]; rfl
+    have h3 : x.proto.isEmpty = false := by
+      obtain ⟨a, t, hm⟩ := List.exists_cons_of_ne_nil (proto_ok hx.wf.isProto).1; rw [hm]; rfl
+    simp [Request.valid, Wire.expected, h1, h2, h3]
+  have hopt' : ¬ (x.expected.method = sOPTIONS ∧ opt = true) := hopt
+  have hproto : respProto x.expected = sHttp10 := by
+    unfold respProto; simp [Wire.expected, h10]
+  have hca : closesAfter x.expected p = true := by
+    unfold closesAfter; rw [hk]; simp only []; rw [hproto]; exact hec
+  have hkeep : (serve1 opt x.expected p [] base).keep = false := by
+    unfold serve1; rw [serveOne_keep _ _ _ _ _ _ _ hopt', hca]; simp
+  have hcalled : (serve1 opt x.expected p [] base).called = true := by
+    unfold serve1; rw [serveOne_called]
+    cases opt with
+    | false => simp
+    | true =>
+      have : ¬ x.expected.method = sOPTIONS := fun h => hopt ⟨h, rfl⟩
+      simp [this]
+  -- the bytes: the unframed stream of `http10_stream_raw`
+  have hu : unframed (handlerHeaders x.expected p) = true ∧ bodyless p.code = false := by
+    unfold endByClose at hec
+    cases hu : unframed (handlerHeaders x.expected p) <;> cases hb : bodyless p.code <;> simp_all
+  have hcl : dicGet (handlerHeaders x.expected p) sContentLength = none := by
+    have := hu.1; unfold unframed hasHeader at this; rw [cap_cl, cap_te] at this
+    cases hg : dicGet (handlerHeaders x.expected p) sContentLength <;> simp_all
+  have hte : dicGet (handlerHeaders x.expected p) sTransferEncoding = none := by
+    have := hu.1; unfold unframed hasHeader at this; rw [cap_cl, cap_te] at this
+    cases hg : dicGet (handlerHeaders x.expected p) sTransferEncoding <;> simp_all
+  have hwire : (serve1 opt x.expected p [] base).wire =
+      headerBlock (statusLine sHttp10 p.code) (setHeader (handlerHeaders x.expected p) sConnection sClose) ++ parts.flatten := by
+    rw [← http10_stream_raw p.code (handlerHeaders x.expected p) parts hu.2 hcl hte]
+    unfold serve1
+    rw [serveOne_streamAuto _ _ _ _ _ _ _ parts hopt' hk, hproto]
+  refine ⟨i', ?_, hdat, hlive⟩
+  unfold serveStep
+  simp only [hne, live_dead hi, Bool.false_eq_true, or_self, if_false]
+  rw [hread]
+  simp only [hvalid, hlive.2, hlive.1, not_true_eq_false, Bool.false_eq_true, or_self, if_false, hkeep, hcalled, if_true, hwire]
 
 /-- **chunked_put_roundtrip** (after the repairs 07183e2, c720b96).  A handler that asks for the chunked coding
 (`setHeader("Transfer-Encoding", "chunked")`) and then gives its body with `put()`: the Content-Length that `put` sets does
@@ -915,7 +1007,7 @@ theorem redirect_target_absolute (base scheme rest : Bytes) (hne : scheme ≠ []
   have hk : (scheme ++ 58 :: rest)[scheme.length]? = some 58 := by simp
   simp [hpos]
 
-/-- **redirect_without_target_returned.**  A redirection that names no target is not followed (9644a87): whatever the
+/-- **redirect_without_target_returned** (a model lemma: a one-step unfolding of `followsRedirect`, not a property clause).  A redirection that names no target is not followed (9644a87): whatever the
 status code, with no `Location` (or an empty one) the response is the result of the request, like any other. -/
 theorem redirect_without_target_returned (follow : Bool) (code : Nat) (h : Dic) (hl : header h sLocation = []) :
     followsRedirect follow code h = false := by
